@@ -195,7 +195,9 @@ xregex_match_sub_strdup(xregex_match_t xm, int i)
 {
     char *s = NULL;
 
-    assert(xm->xm_used);
+    /* a script may refer to $N before any expect has been tried */
+    if (!xm->xm_used)
+        return NULL;
 
     if (xm->xm_result == 0 && i >= 0 && i < xm->xm_nmatch
                            && xm->xm_pmatch[i].rm_so != -1) {
